@@ -682,7 +682,17 @@ impl Prop for C20 {
         };
         // reading one layer makes the archive code walk the whole tar file: with dozens of layers only whole transfers
         // keep a run within its time budget
-        let (chunk_r, chunk_w) = if mode < 4 || layers.len() > 6 { (Chunk::Whole, Chunk::Whole) } else { (chunk(rng), chunk(rng)) };
+        // (the same holds for a layer of ~100 KB read a few bytes at a time over three routes: the step cap of a run would
+        // be reached by the workload alone)
+        let heavy = layers.len() > 6 || layers.iter().any(|l| l.kind == Kind::Instance && l.msg_seed % 61 == 0);
+        let (chunk_r, chunk_w) = if mode < 4 || layers.len() > 6 {
+            (Chunk::Whole, Chunk::Whole)
+        } else if heavy {
+            // still in pieces, but of kilobytes
+            (Chunk::Rand { max: 4096 + rng.below(8192) as u32, seed: rng.next() }, Chunk::Rand { max: 4096 + rng.below(8192) as u32, seed: rng.next() })
+        } else {
+            (chunk(rng), chunk(rng))
+        };
         let clock_jumps = (0..n_ops + 2).map(|_| if rng.chance(1, 3) { *rng.pick(&[3600i64, -3600, 86_400 * 365, -86_400 * 400, 1, -1, 13 * 3600 + 1800]) } else { 0 }).collect();
         let foreign = if rng.chance(1, 12) { 1 + rng.below(2) as u8 } else { 0 };
         Case { name, layers, config: rng.chance(1, 3), via_dir: rng.chance(1, 3), foreign, faults, chunk_r, chunk_w, clock_jumps, hash_seed: rng.next(), read_tz: if rng.chance(1, 4) { 1 + rng.below(5) as u8 } else { 0 } }
